@@ -17,6 +17,10 @@ type algebra[V any] struct {
 	rname string
 	mk    func(vs []V) col.SetLike[V]
 	fresh func(r *core.Rng) V // a value used to mutate sets afterwards
+	// derive: B is the result of this operation on (A, set of y); shared: both
+	// operands are built with this one collator object
+	derive string
+	shared *HCollator[V]
 }
 
 // expected computes the mathematical result on (sorted, de-duplicated) class
@@ -116,6 +120,12 @@ func (a *algebra[V]) sameSet(got, want []V, sources ...[]V) string {
 
 func (a *algebra[V]) check(x, y []V, aliased bool, rng *core.Rng) {
 	cs := map[string]any{"element": a.d.Name, "collator": a.rname, "A": StrAll(a.d, x), "B": StrAll(a.d, y), "aliased": aliased}
+	if a.derive != "" {
+		cs["B"] = a.derive + "(A, " + StrAll(a.d, y) + ")"
+	}
+	if a.shared != nil {
+		cs["collator"] = a.rname + " (one collator object shared by both operands)"
+	}
 	fail := func(sig, format string, args ...any) {
 		a.c.Violation("setalgebra."+sig, fmt.Sprintf(format, args...), cs)
 	}
@@ -128,6 +138,18 @@ func (a *algebra[V]) check(x, y []V, aliased bool, rng *core.Rng) {
 			B = A
 			if !aliased {
 				B = a.mk(y)
+				// B may itself be the result of an earlier operation on A (it then carries
+				// whatever a result inherits from its first operand, e.g. the collator object)
+				switch a.derive {
+				case "And":
+					B = S.And(A, B)
+				case "Or":
+					B = S.Or(A, B)
+				case "Sans":
+					B = S.Sans(A, B)
+				case "Xor":
+					B = S.Xor(A, B)
+				}
 			}
 			ra, rb = A.AsArray(), B.AsArray()
 			switch op {
@@ -209,7 +231,11 @@ func makeAlgebra[V any](c *core.Ctx, d Dom[V], collator string, coarse func(a, b
 		a.rank = coarse
 	}
 	a.mk = func(vs []V) col.SetLike[V] {
-		s := col.Set[V](Notation).MakeWithCollator(&HCollator[V]{Name: collator, Rank: a.rank})
+		hc := &HCollator[V]{Name: collator, Rank: a.rank}
+		if a.shared != nil {
+			hc = a.shared
+		}
+		s := col.Set[V](Notation).MakeWithCollator(hc)
 		for _, v := range vs {
 			s.AddValue(v)
 		}
@@ -266,6 +292,16 @@ func RunC15Random[V any](c *core.Ctx, d Dom[V], collator string, coarse func(a, 
 		y = Clone(x)
 	default:
 		y = gen()
+	}
+	switch r.Intn(4) {
+	case 0:
+		a.derive = []string{"And", "Or", "Sans", "Xor"}[r.Intn(4)]
+		c.Cover("operand-derived-from-the-other")
+	case 1:
+		if collator != "default" {
+			a.shared = &HCollator[V]{Name: collator, Rank: a.rank}
+			c.Cover("operands-sharing-one-collator-object")
+		}
 	}
 	a.check(x, y, r.Chance(1, 10), r)
 }
